@@ -2,7 +2,8 @@ package main
 
 // C18 — the IDL audit flags every breaking change and nothing else.
 //
-// Suite "c18": random well-formed program, k ∈ 0..3 random a18Edits from the documented
+// Suite "c18": random well-formed program (often with included files whose names collide with the
+// main file's; see audit_inc.go for the include edits and the command-line suite "c18cli"), k ∈ 0..3 random a18Edits from the documented
 // catalogue (compatible and breaking, at random applicable sites, one a18Edit per declaration),
 // both programs rendered to IDL text, audited by the REAL parser.Auditor with a recording
 // logger, and sent (as re-parsed by the real parser) to the Lean model.
@@ -16,6 +17,7 @@ import (
 	"fmt"
 	"os"
 	"path/filepath"
+	"runtime/debug"
 	"strconv"
 	"strings"
 
@@ -109,24 +111,46 @@ type a18AuditOut struct {
 	newP     *a18GProg
 }
 
-// a18RealAudit writes both programs to a scratch directory, runs the real auditor and
-// re-parses both files to obtain the ASTs the auditor saw.
-func a18RealAudit(oldText, newText string) (res a18AuditOut) {
+// a18Files: the files of a program: main.frugal and one file per include.
+func a18Files(p *a18GProg) map[string]string {
+	m := map[string]string{"main.frugal": p.idl()}
+	for _, in := range p.includes {
+		m[in.name+".frugal"] = in.prog.idl()
+	}
+	return m
+}
+
+func a18WriteFiles(dir string, files map[string]string) error {
+	if err := os.MkdirAll(dir, 0o755); err != nil {
+		return err
+	}
+	for name, text := range files {
+		if err := os.WriteFile(filepath.Join(dir, name), []byte(text), 0o644); err != nil {
+			return err
+		}
+	}
+	return nil
+}
+
+// a18RealAudit writes both programs (with their included files, each program in its own
+// directory) to a scratch directory, runs the real auditor and re-parses both main files to
+// obtain the ASTs the auditor saw.
+func a18RealAudit(oldP, newP *a18GProg) (res a18AuditOut) {
 	dir, err := os.MkdirTemp("", "verif-c18-")
 	if err != nil {
 		res.parseErr = "mkdtemp: " + err.Error()
 		return
 	}
 	defer os.RemoveAll(dir)
-	op, np := filepath.Join(dir, "old.frugal"), filepath.Join(dir, "new.frugal")
-	if err := os.WriteFile(op, []byte(oldText), 0o644); err != nil {
+	if err := a18WriteFiles(filepath.Join(dir, "old"), a18Files(oldP)); err != nil {
 		res.parseErr = err.Error()
 		return
 	}
-	if err := os.WriteFile(np, []byte(newText), 0o644); err != nil {
+	if err := a18WriteFiles(filepath.Join(dir, "new"), a18Files(newP)); err != nil {
 		res.parseErr = err.Error()
 		return
 	}
+	op, np := filepath.Join(dir, "old", "main.frugal"), filepath.Join(dir, "new", "main.frugal")
 	of, err := parser.ParseFrugal(op)
 	if err != nil {
 		res.parseErr = "old: " + err.Error()
@@ -210,7 +234,95 @@ func (g *a18Gen) namedPool(p *a18GProg, upToTypedef int, excs bool) []string {
 			out = append(out, t.name)
 		}
 	}
+	out = append(out, a18QualifiedPool(p)...)
 	return out
+}
+
+// a18QualifiedPool: `inc.Name` for every struct and enum of an include and for every included
+// typedef whose body mentions no name. (An included typedef with a name in its body — a second
+// typedef hop or a struct of the include — is the recorded finding `include-typedef-second-hop`:
+// such typedefs exist in the generated includes but the main file never refers to them.)
+func a18QualifiedPool(p *a18GProg) []string {
+	var out []string
+	for _, in := range p.includes {
+		for _, st := range in.prog.structs {
+			out = append(out, in.name+"."+st.name)
+		}
+		for _, en := range in.prog.enums {
+			out = append(out, in.name+"."+en.name)
+		}
+		for _, td := range in.prog.typedefs {
+			if td.ty.nameFree() {
+				out = append(out, in.name+"."+td.name)
+			}
+		}
+	}
+	return out
+}
+
+func (g *a18Gen) nameFreeTy(depth int) *a18GTy {
+	r := g.r
+	c := r.Intn(100)
+	switch {
+	case depth >= 3 || c < 55:
+		return &a18GTy{kind: a18TyBase, name: a18BaseNames[r.Intn(len(a18BaseNames))]}
+	case c < 75:
+		return &a18GTy{kind: a18TyList, name: "list", v: g.nameFreeTy(depth + 1)}
+	case c < 85:
+		return &a18GTy{kind: a18TySet, name: "set", v: g.nameFreeTy(depth + 1)}
+	}
+	return &a18GTy{kind: a18TyMap, name: "map", k: g.nameFreeTy(depth + 1), v: g.nameFreeTy(depth + 1)}
+}
+
+// include: an included file whose declaration names COLLIDE with names of the main file
+// (`collide`: typedef, struct, enum and service names of the main file) about half of the time.
+func (g *a18Gen) include(name string, collide []string) *a18GInc {
+	r := g.r
+	ip := &a18GProg{}
+	used := map[string]bool{}
+	pick := func(prefix string) string {
+		for try := 0; try < 6; try++ {
+			if len(collide) > 0 && r.Chance(55) {
+				if n := collide[r.Intn(len(collide))]; !used[n] {
+					used[n] = true
+					return n
+				}
+			}
+		}
+		n := g.fresh(prefix)
+		used[n] = true
+		return n
+	}
+	for i, n := 0, 1+r.Intn(2); i < n; i++ {
+		st := &a18GStruct{kind: 's', name: pick("St")}
+		for j, k := 0, r.Intn(3); j < k; j++ {
+			st.fields = append(st.fields, &a18GField{id: j + 1, mod: 'd', name: "f" + strconv.Itoa(j), ty: g.nameFreeTy(1), dflt: "-"})
+		}
+		ip.structs = append(ip.structs, st)
+	}
+	if r.Chance(50) {
+		ip.enums = append(ip.enums, &a18GEnum{name: pick("En"), vals: []a18GEV{{g.fresh("VAL"), 0}, {g.fresh("VAL"), 1}}})
+	}
+	for i, n := 0, 1+r.Intn(3); i < n; i++ {
+		ip.typedefs = append(ip.typedefs, &a18GTypedef{pick("Td"), g.nameFreeTy(0)})
+	}
+	// typedefs with names in their bodies (never referred to from the main file)
+	for i, n := 0, r.Intn(3); i < n; i++ {
+		var body *a18GTy
+		switch r.Intn(3) {
+		case 0:
+			body = &a18GTy{kind: a18TyNamed, name: ip.typedefs[r.Intn(len(ip.typedefs))].name}
+		case 1:
+			body = &a18GTy{kind: a18TyNamed, name: ip.structs[0].name}
+		default:
+			body = &a18GTy{kind: a18TyList, name: "list", v: &a18GTy{kind: a18TyNamed, name: ip.typedefs[0].name}}
+		}
+		ip.typedefs = append(ip.typedefs, &a18GTypedef{pick("Td"), body})
+	}
+	if r.Chance(50) {
+		ip.services = append(ip.services, &a18GService{name: pick("Sv")})
+	}
+	return &a18GInc{name, ip}
 }
 
 func (g *a18Gen) ty(p *a18GProg, depth int, upToTypedef int) *a18GTy {
@@ -337,17 +449,65 @@ func a18GenProg(r *Rng) *a18GProg {
 	for i, n := 0, r.Intn(3); i < n; i++ {
 		p.structs = append(p.structs, &a18GStruct{kind: 'x', name: g.fresh("Ex")})
 	}
+	// names of the main file's typedefs and services are fixed before the includes are made,
+	// so that the includes can re-use them
+	var tdNames, svNames []string
 	for i, n := 0, r.Intn(5); i < n; i++ {
-		p.typedefs = append(p.typedefs, &a18GTypedef{g.fresh("Td"), g.ty(p, 0, i)})
+		tdNames = append(tdNames, g.fresh("Td"))
+	}
+	for i, n := 0, r.Intn(4); i < n; i++ {
+		svNames = append(svNames, g.fresh("Sv"))
+	}
+	if r.Chance(45) {
+		collide := append([]string{}, tdNames...)
+		collide = append(collide, svNames...)
+		for _, st := range p.structs {
+			collide = append(collide, st.name)
+		}
+		for _, en := range p.enums {
+			collide = append(collide, en.name)
+		}
+		for i, n := 0, 1+r.Intn(2); i < n; i++ {
+			p.includes = append(p.includes, g.include([]string{"inca", "incb"}[i], collide))
+		}
+	}
+	for i, name := range tdNames {
+		p.typedefs = append(p.typedefs, &a18GTypedef{name, g.ty(p, 0, i)})
+	}
+	// a local alias with the very name of the included typedef it stands for: `typedef inca.X X`
+	for _, in := range p.includes {
+		for _, td := range in.prog.typedefs {
+			if !td.ty.nameFree() || !r.Chance(35) {
+				continue
+			}
+			taken := false
+			for _, n := range append(append([]string{}, tdNames...), svNames...) {
+				taken = taken || n == td.name
+			}
+			for _, st := range p.structs {
+				taken = taken || st.name == td.name
+			}
+			for _, en := range p.enums {
+				taken = taken || en.name == td.name
+			}
+			for _, t := range p.typedefs {
+				taken = taken || t.name == td.name
+			}
+			if !taken {
+				p.typedefs = append(p.typedefs, &a18GTypedef{td.name, &a18GTy{kind: a18TyNamed, name: in.name + "." + td.name}})
+			}
+		}
 	}
 	for _, s := range p.structs {
 		mods := "ddroo"
 		s.fields = g.fields(p, r.Intn(6), mods, r.Chance(10))
 	}
-	for i, n := 0, r.Intn(4); i < n; i++ {
-		s := &a18GService{name: g.fresh("Sv")}
+	for i, name := range svNames {
+		s := &a18GService{name: name}
 		if i > 0 && r.Chance(40) {
 			s.ext = p.services[r.Intn(i)].name
+		} else if q := a18QualifiedServices(p); len(q) > 0 && r.Chance(30) {
+			s.ext = q[r.Intn(len(q))]
 		}
 		for j, k := 0, r.Intn(5); j < k; j++ {
 			s.methods = append(s.methods, g.method(p, g.fresh("me")))
@@ -373,6 +533,16 @@ func a18GenProg(r *Rng) *a18GProg {
 		}
 	}
 	return p
+}
+
+func a18QualifiedServices(p *a18GProg) []string {
+	var out []string
+	for _, in := range p.includes {
+		for _, sv := range in.prog.services {
+			out = append(out, in.name+"."+sv.name)
+		}
+	}
+	return out
 }
 
 // ---------- a18Edits ----------
@@ -706,9 +876,23 @@ func (e *a18Editor) aliasSwap() bool {
 				cands = append(cands, &a18GTy{kind: a18TyNamed, name: td.name})
 			}
 		}
+		for _, in := range e.nw.includes {
+			for _, td := range in.prog.typedefs {
+				q := in.name + "." + td.name
+				if td.ty.nameFree() && e.nw.canonD(in.name, td.ty, 0) == sub && !(saved.kind == a18TyNamed && saved.name == q) {
+					cands = append(cands, &a18GTy{kind: a18TyNamed, name: q})
+				}
+			}
+		}
 		if saved.kind == a18TyNamed {
-			if td := e.nw.typedef(saved.name); td != nil {
-				cands = append(cands, td.ty.clone())
+			if inc, base := a18SplitQual(saved.name); inc == "" {
+				if td := e.nw.typedef(saved.name); td != nil {
+					cands = append(cands, td.ty.clone())
+				}
+			} else if in := e.nw.include(inc); in != nil {
+				if td := in.prog.typedef(base); td != nil && td.ty.nameFree() {
+					cands = append(cands, td.ty.clone())
+				}
 			}
 		}
 		if len(cands) == 0 {
@@ -1019,6 +1203,11 @@ func init() {
 			}
 			if o.name != s.ext {
 				c = append(c, o.name)
+			}
+		}
+		for _, q := range a18QualifiedServices(e.nw) {
+			if q != s.ext {
+				c = append(c, q)
 			}
 		}
 		k := "svc:" + s.name
@@ -1383,11 +1572,15 @@ type c18Case struct {
 
 func a18GenCase(r *Rng) *c18Case {
 	old := a18GenProg(r)
+	k := r.Intn(4)
+	return a18EditCase(r, old, r.Intn(3), k)
+}
+
+// a18EditCase: k edits applied to a copy of old. mode 0/2: any edits, 1: compatible edits only.
+func a18EditCase(r *Rng, old *a18GProg, mode, k int) *c18Case {
 	g := &a18Gen{r: r, p: old, counter: 1000}
 	e := &a18Editor{g: g, r: r, old: old, nw: old.clone(), touched: map[string]bool{}}
 	g.p = e.nw
-	k := r.Intn(4)
-	mode := r.Intn(3) // 0: any, 1: compatible only, 2: any
 	for a18Applied, tries := 0, 0; a18Applied < k && tries < 60; tries++ {
 		ed := a18Edits[r.Intn(len(a18Edits))]
 		before := len(e.log)
@@ -1439,10 +1632,27 @@ func a18AudLine(oldP, newP *a18GProg, expect string) string {
 }
 
 // a18ShrinkCase: drop declarations no a18Edit touched while the same oracle failure persists.
+var a18Shrinks = 0
+
 func a18ShrinkCase(c *c18Case, expect string) (oldP, newP *a18GProg) {
 	oldP, newP = c.old.clone(), c.nw.clone()
+	if a18Shrinks++; a18Shrinks > 4 {
+		return // enough minimal witnesses from this process
+	}
+	errKey := func(m string) string {
+		w := strings.Fields(strings.TrimPrefix(strings.TrimPrefix(m, "old: "), "new: "))
+		if len(w) > 2 {
+			w = w[:2]
+		}
+		return strings.Join(w, " ")
+	}
+	first := a18RealAudit(oldP, newP)
 	stillFails := func(o, n *a18GProg) bool {
-		a := a18RealAudit(o.idl(), n.idl())
+		a := a18RealAudit(o, n)
+		if first.parseErr != "" {
+			// the failure being shrunk is a rejected valid pair: the same kind of rejection
+			return a.parseErr != "" && errKey(a.parseErr) == errKey(first.parseErr)
+		}
 		return a.parseErr == "" && !a18OracleHolds(expect, a)
 	}
 	if !stillFails(oldP, newP) {
@@ -1533,6 +1743,17 @@ func a18ShrinkCase(c *c18Case, expect string) (oldP, newP *a18GProg) {
 				}})
 			}
 		}
+		for _, in := range oldP.includes {
+			name := in.name
+			cands = append(cands, rm{"inc:" + name, func(p *a18GProg) {
+				for i, x := range p.includes {
+					if x.name == name {
+						p.includes = append(p.includes[:i:i], p.includes[i+1:]...)
+						return
+					}
+				}
+			}})
+		}
 		cands = append(cands, rm{"nsconst:", func(p *a18GProg) { p.nss, p.consts = nil, nil }})
 		for _, cd := range cands {
 			if c.touched[cd.key] || budget <= 0 {
@@ -1567,13 +1788,14 @@ func runC18(r *Rng, n int) {
 	// common.go's stream for seed k+1 is the stream for seed k shifted by one draw:
 	// restart from a mixed output so that different seeds explore different programs
 	r = &Rng{s: r.U64() ^ 0xC18C18C18}
+	debug.SetMaxStack(2 << 20) // a runaway recursion in the code under test ends the process quickly (checkType's context strings grow with the depth)
 	c18KnownWitness()
 	for i := 0; i < n; i++ {
 		c := a18GenCase(r)
 		expect := a18ExpectOf(c.breaking)
-		a := a18RealAudit(c.old.idl(), c.nw.idl())
+		a := a18RealAudit(c.old, c.nw)
 		Stat("evaluations")
-		Stat(fmt.Sprintf("a18Edits=%d", len(c.log)))
+		Stat(fmt.Sprintf("edits=%d", len(c.log)))
 		Stat("expect-" + expect)
 		maxDepth := 0
 		for _, ed := range c.log {
@@ -1581,10 +1803,10 @@ func runC18(r *Rng, n int) {
 			if ed.breaking {
 				cl = "breaking"
 			}
-			Stat("a18Edit:" + cl + ":" + ed.kind)
+			Stat("edit:" + cl + ":" + ed.kind)
 			Stat("site:" + ed.site[:strings.IndexByte(ed.site+":", ':')])
 			if strings.HasPrefix(ed.kind, "retype") || strings.HasPrefix(ed.kind, "alias") || strings.HasPrefix(ed.kind, "typedef-body") {
-				Stat(fmt.Sprintf("type-a18Edit-depth=%d", ed.depth))
+				Stat(fmt.Sprintf("type-edit-depth=%d", ed.depth))
 			}
 			if ed.depth > maxDepth {
 				maxDepth = ed.depth
@@ -1592,7 +1814,18 @@ func runC18(r *Rng, n int) {
 		}
 		if a.parseErr != "" {
 			Stat("parse-error")
-			Case(a18AudLine(c.old, c.nw, expect), "parse-error "+a.parseErr)
+			line := a18AudLine(c.old, c.nw, expect)
+			Case(line, "parse-error "+a.parseErr)
+			if expect == "pass" {
+				// "identical programs and the documented compatible edits always pass"
+				so, sn := a18ShrinkCase(c, expect)
+				sa := a18RealAudit(so, sn)
+				if sa.parseErr != "" {
+					line = a18AudLine(so, sn, expect)
+				}
+				OracleFail("audit rejected a valid program pair that has no breaking change", map[string]interface{}{"op": "aud", "line": line,
+					"edits": fmt.Sprint(c.log), "expect": expect, "real": "parse-error " + a.parseErr, "old_files": a18Files(so), "new_files": a18Files(sn)})
+			}
 			continue
 		}
 		if a.failed {
@@ -1611,17 +1844,17 @@ func runC18(r *Rng, n int) {
 		}
 		if !a18OracleHolds(expect, a) {
 			so, sn := a18ShrinkCase(c, expect)
-			sa := a18RealAudit(so.idl(), sn.idl())
+			sa := a18RealAudit(so, sn)
 			sline := line
 			if sa.parseErr == "" && !a18OracleHolds(expect, sa) {
 				sline = a18AudLine(sa.oldP, sa.newP, expect)
 			}
-			what := "audit passed although a breaking a18Edit was a18Applied"
+			what := "audit passed although a breaking edit was applied"
 			if expect == "pass" {
-				what = "audit failed although only compatible a18Edits were a18Applied"
+				what = "audit failed although only compatible edits were applied"
 			}
 			OracleFail(what, map[string]interface{}{"op": "aud", "line": sline, "a18Edits": fmt.Sprint(c.log), "expect": expect,
-				"real": sa.canonical(), "errors": sa.errors, "old_idl": so.idl(), "new_idl": sn.idl()})
+				"real": sa.canonical(), "errors": sa.errors, "old_files": a18Files(so), "new_files": a18Files(sn)})
 		}
 	}
 }
@@ -1641,9 +1874,9 @@ func init() {
 		if len(args) >= 4 {
 			expect = args[3]
 		}
-		a := a18RealAudit(o.idl(), n.idl())
+		a := a18RealAudit(o, n)
 		if a.parseErr != "" {
-			return "parse-error " + a.parseErr, true
+			return "parse-error " + a.parseErr, expect != "pass"
 		}
 		// the replayed line must denote the programs the real parser sees
 		if a.oldP.tok() != args[1] || a.newP.tok() != args[2] {
